@@ -48,7 +48,7 @@ def run(tier, replay=None):
         vlib.driver_json(["directed", "-out", os.path.join(vlib.scratch(), "d.ndjson"), "-tmp", tmp, "-seed", vlib.seed(), "-scenarios", sd, "-names", ",".join(names)])
         if not quick:
             vlib.driver_json(["random", "-out", os.path.join(vlib.scratch(), "r.ndjson"), "-tmp", tmp, "-seed", vlib.seed() * 31 + 3, "-n", 9, "-blocks", 22, "-maxtx", 4, "-scenarios", sd])
-        window = (9, 10) if quick else (2, 21)
+        window = (9, 10) if quick else (1, 21)
     files = sorted(os.listdir(sd))
     groups = []
     for i, f in enumerate(files):
@@ -61,6 +61,13 @@ def run(tier, replay=None):
         i, g = i_g
         out = os.path.join(vlib.scratch(), "crash-%d.ndjson" % i)
         st = vlib.driver_json(["crash", "-scenarios", g, "-out", out, "-tmp", tmp, "-from", window[0], "-to", window[1], "-cont", 3], timeout=7200)
+        if quick and not replay and i == 0:
+            # the genesis block (InitChain delivered again after a crash before the first commit) of one history
+            out1 = os.path.join(vlib.scratch(), "crash-%d-genesis.ndjson" % i)
+            st1 = vlib.driver_json(["crash", "-scenarios", g, "-out", out1, "-tmp", tmp, "-from", 1, "-to", 1, "-cont", 3], timeout=7200)
+            with open(out, "a") as f:
+                f.write(open(out1).read())
+            st = {k: st.get(k, 0) + st1.get(k, 0) for k in set(st) | set(st1)}
         res = vlib.run_tlc(vlib.spec_files("Durability.tla", "DurabilityTrace.tla", "DurabilityTrace.cfg"), "DurabilityTrace.tla", "DurabilityTrace.cfg",
                            workers=1, timeout=3000, cwd_files={"trace.ndjson": out}, java_opts=["-Xmx2g"])
         if vlib.tlc_failed(res) or "VIOLATIONS" not in res.prints:
